@@ -688,7 +688,19 @@ func (r *runner) resolveCompletedTasks(ctx context.Context, completedTasks []*ta
 				if _, ok := writeChannelValues[next]; !ok {
 					writeChannelValues[next] = make(map[string]any)
 				}
+				if prev, dup := writeChannelValues[next][t.nodeKey]; dup {
+					// several branches selected the same successor: it needs one copy only
+					closeIfStream(prev)
+				}
 				writeChannelValues[next][t.nodeKey] = vs[i]
+			}
+			// branches that selected fewer successors than expected leave copies nobody will read
+			for i := len(nextNodeKeys); i < len(vs); i++ {
+				closeIfStream(vs[i])
+			}
+		} else {
+			for i := 0; i < len(t.call.writeToBranches) && i < len(vs); i++ {
+				closeIfStream(vs[i])
 			}
 		}
 	}
@@ -839,6 +851,12 @@ func (r *runner) toComposableRunnable() *composableRunnable {
 	}
 
 	return cr
+}
+
+func closeIfStream(item any) {
+	if s, ok := item.(streamReader); ok {
+		s.close()
+	}
 }
 
 func copyItem(item any, n int) []any {
